@@ -20,7 +20,8 @@ through the transcription of what the crate does — `positionOfIndex` (`SliceRe
   is exactly `lineCol bs (d + 1)` for the first dead byte `d` found by the independent scanner `Spec.Pos`.
 * `lcs <cfg> <tgt> <calls> <hex> => <str>|<slice>|<reader>` — `StreamDeserializer` histories (`item@byte_offset`).
   Specification: C09 (three histories identical); C12's grammar-derived history (items' classes and offsets); C11: the
-  first error item sits at `lineCol bs (d + 1)` when the stream dies at byte `d`.
+  first error item sits at `lineCol bs (d + 1)` when the stream dies at byte `d` (a side-condition error — number out
+  of range, escape value, depth — only has to lie at or before it).
 -/
 namespace SJ.Drv.LineCol
 open SJ SJ.Drv SJ.Drv.Mach SJ.Model.Typed SJ.Model.LineCol
@@ -166,10 +167,10 @@ partial def streamDead (bs : Bytes) : Option Nat :=
   go bs 0
 
 /-- position of the first error item of a history -/
-def firstErrPos (o : String) : Option (String × String) :=
+def firstErrPos (o : String) : Option (String × String × String) :=
   ((o.splitOn ",").filterMap fun it =>
     match (it.splitOn "@").headD "" |>.splitOn ":" with
-    | ["E", _, cat, l, c] => some (cat, s!"{l}:{c}")
+    | ["E", msg, cat, l, c] => some (msg, cat, s!"{l}:{c}")
     | _ => none).head?
 
 def lcs : Handler := fun args impl =>
@@ -188,7 +189,7 @@ def lcs : Handler := fun args impl =>
           (if o1 != "-" && o1 != o2 then [s!"C09 stream: str and slice histories differ ({o1} vs {o2})"] else []) ++
           (if o2 != o3 then [s!"C09 stream: slice and reader histories differ ({o2} vs {o3})"] else [])
         let panics := if (impl.splitOn "PANIC").length > 1 then ["C11 panic in a stream history"] else []
-        -- C12's grammar-derived history: classes and offsets (no side conditions occur in these streams)
+        -- C12's grammar-derived history: classes and offsets (side-condition errors are Syntax errors at the item, as the grammar history says)
         let c12 := [("str", o1, false), ("slice", o2, true), ("reader", o3, true)].filterMap fun (n, o, byteSrc) =>
           if o == "-" then none else
           let exp := SJ.Drv.C12.specHistory cfg tgt byteSrc bs k
@@ -202,10 +203,18 @@ def lcs : Handler := fun args impl =>
             [("str", o1), ("slice", o2), ("reader", o3)].filterMap fun (n, o) =>
               if o == "-" then none else
               match firstErrPos o with
-              | some ("syntax", p) =>
-                if p == s!"{el}:{ec}" then none
+              | some (msg, "syntax", p) =>
+                -- a side-condition error (number out of range, bad escape value, depth) is raised inside a
+                -- grammatical item, before the first grammar-dead byte: C11 only asks it to lie within the input
+                if SJ.Drv.C01.isSideMsg msg then
+                  (match p.splitOn ":" with
+                   | [l, c] =>
+                     if (SJ.Drv.C01.idxOfLineCol bs (l.toNat?.getD 0) (c.toNat?.getD 0)).any (· ≤ d + 1) then none
+                     else some s!"C11 {n}: side-condition error at {p}, not at or before the dead byte {d} = {el}:{ec}"
+                   | _ => some s!"C11 {n}: unreadable position {p}")
+                else if p == s!"{el}:{ec}" then none
                 else some s!"C11 {n}: the stream dies at byte {d} = {el}:{ec}, first error reported at {p}"
-              | some (cat, p) => some s!"C11 {n}: the stream dies at byte {d} = {el}:{ec}, first error is {cat} at {p}"
+              | some (_, cat, p) => some s!"C11 {n}: the stream dies at byte {d} = {el}:{ec}, first error is {cat} at {p}"
               | none => some s!"C11 {n}: the stream dies at byte {d} = {el}:{ec}, no error reported"
         { model := m .str o1 ++ "|" ++ m .slice o2 ++ "|" ++ m .reader o3, specs := panics ++ c09 ++ c12 ++ c11 }
       | _ => bad "obs"
